@@ -91,7 +91,9 @@ def GoodAtom (env : Env) (a : Atom) : Prop :=
   (if a.name = "extra" then a.op = .eq ∨ a.op = .ne
    else if setNames.contains a.name then a.reversed = true ∧ (a.op = .in_ ∨ a.op = .notIn)
    else if versionLikeNames.contains a.name then
-     a.Coherent env ∧ a.spec.Canon ∧ NormGood env a ∧ (a.name = "python_version" → PvBounds a.spec)
+     -- an atom whose specifier view is not exact (`"3.8" ~= python_version`, ...) is opaque: never merged
+     a.exactView = false ∨
+     (a.Coherent env ∧ a.spec.Canon ∧ NormGood env a ∧ (a.name = "python_version" → PvBounds a.spec))
    else StrName a.name)
 
 def Good (env : Env) : M → Prop
@@ -317,7 +319,7 @@ def FromSpecOk (env : Env) : Prop :=
 
 /-- the python_version / python_full_version merge -/
 def PyMergeOk (env : Env) : Prop :=
-  ∀ a b isAnd m, GoodAtom env a → GoodAtom env b →
+  ∀ a b isAnd m, GoodAtom env a → GoodAtom env b → a.exactView = true → b.exactView = true →
     ((a.name == "python_version" && b.name == "python_full_version") ||
      (a.name == "python_full_version" && b.name == "python_version")) = true →
     mergePythonVersion a b isAnd = some m →
@@ -385,13 +387,18 @@ theorem GSpec.or_spec_operand (a b g : GSpec) (h : a.or b = some (.spec g)) : g 
       first | exact Or.inl h.symm | exact Or.inr h.symm | exact Or.inl h.2.symm | exact Or.inr h.2.symm
 
 /-- atoms on ordinary variables (string or version) are coherent, canonical, of the right kind -/
+theorem exactView_of_notVersionLike (a : Atom) (h : versionLikeNames.contains a.name = false) :
+    a.exactView = true := by
+  unfold Atom.exactView; rw [h]; simp
+
 theorem good_ordinary (env : Env) (a : Atom) (ha : GoodAtom env a) (h1 : a.name ≠ "extra")
-    (h2 : setNames.contains a.name = false) :
+    (h2 : setNames.contains a.name = false) (hx : a.exactView = true) :
     a.Coherent env ∧ a.spec.Canon ∧ SameKind a.name a.spec := by
   obtain ⟨hw, hc⟩ := ha
   simp only [h1, if_false, h2, Bool.false_eq_true] at hc
   by_cases hv : versionLikeNames.contains a.name = true
   · simp only [hv, if_true] at hc
+    replace hc := hc.resolve_left (by simp [hx])
     obtain ⟨s, hs⟩ := wf_ver_spec a hw hv
     exact ⟨hc.1, hc.2.1, by rw [hs]; exact hv⟩
   · simp only [hv, Bool.false_eq_true, if_false] at hc
@@ -403,11 +410,12 @@ theorem ofGRes_beq_gen (r : GRes) (g : GSpec) (h : (ASpec.ofGRes r).beq (.gen g)
   simp [ASpec.ofGRes, ASpec.beq] at h
 
 theorem good_pvbounds (env : Env) (a : Atom) (ha : GoodAtom env a) (h1 : a.name ≠ "extra")
-    (h2 : setNames.contains a.name = false) (hv : versionLikeNames.contains a.name = true) :
+    (h2 : setNames.contains a.name = false) (hv : versionLikeNames.contains a.name = true)
+    (hx : a.exactView = true) :
     a.name = "python_version" → PvBounds a.spec := by
   have hc := ha.2
   simp only [h1, if_false, h2, Bool.false_eq_true, hv, if_true] at hc
-  exact hc.2.2.2
+  exact (hc.resolve_left (by simp [hx])).2.2.2
 
 theorem aspec_pvbounds (isAnd : Bool) (s1 s2 r : ASpec) (p1 : PvBounds s1) (p2 : PvBounds s2)
     (hr : (if isAnd then aspecAnd s1 s2 else aspecOr s1 s2) = some r) : PvBounds r := by
@@ -430,14 +438,15 @@ theorem aspec_pvbounds (isAnd : Bool) (s1 s2 r : ASpec) (p1 : PvBounds s1) (p2 :
 
 /-- the branch of `_merge_single_markers` where the specifier views could be combined -/
 theorem merge_some_ok (env : Env) (he : EnvTotal env) (hF : FromSpecOk env) (a b : Atom) (isAnd : Bool)
-    (ha : GoodAtom env a) (hb : GoodAtom env b) (hn : a.name = b.name) (h1 : a.name ≠ "extra")
+    (ha : GoodAtom env a) (hb : GoodAtom env b) (hxa : a.exactView = true) (hxb : b.exactView = true)
+    (hn : a.name = b.name) (h1 : a.name ≠ "extra")
     (h2 : setNames.contains a.name = false) (r : ASpec)
     (hr : (if isAnd then aspecAnd a.spec b.spec else aspecOr a.spec b.spec) = some r) (m : M)
     (hm : (if r.beq a.spec then some (.expr a) else if r.beq b.spec then some (.expr b)
            else fromSpecifier a.name r) = some m) :
     GAll (Good env) m ∧ sem env m = bop isAnd (sem env (.expr a)) (sem env (.expr b)) := by
-  obtain ⟨ca, na, ka⟩ := good_ordinary env a ha h1 h2
-  obtain ⟨cb, nb, kb⟩ := good_ordinary env b hb (hn ▸ h1) (hn ▸ h2)
+  obtain ⟨ca, na, ka⟩ := good_ordinary env a ha h1 h2 hxa
+  obtain ⟨cb, nb, kb⟩ := good_ordinary env b hb (hn ▸ h1) (hn ▸ h2) hxb
   rw [← hn] at kb
   have hsem : holds env a.name r = bop isAnd (sem env (.expr a)) (sem env (.expr b)) ∧ r.Canon := by
     unfold Atom.Coherent at ca cb
@@ -472,8 +481,8 @@ theorem merge_some_ok (env : Env) (he : EnvTotal env) (hF : FromSpecOk env) (a b
           have hvl : versionLikeNames.contains a.name = true := by rw [hsa] at ka; exact ka
           refine hF a.name s m hvl hsem.2 ?_ hm
           intro hpvn
-          exact aspec_pvbounds isAnd _ _ _ (good_pvbounds env a ha h1 h2 hvl hpvn)
-            (good_pvbounds env b hb (hn ▸ h1) (hn ▸ h2) (hn ▸ hvl) (hn ▸ hpvn)) hr
+          exact aspec_pvbounds isAnd _ _ _ (good_pvbounds env a ha h1 h2 hvl hxa hpvn)
+            (good_pvbounds env b hb (hn ▸ h1) (hn ▸ h2) (hn ▸ hvl) hxb (hn ▸ hpvn)) hr
         | gen ga =>
           -- a string merge that collapsed to the empty / universal specifier
           have hs : s = .empty ∨ s = .any := by
@@ -595,10 +604,16 @@ theorem mergeSingle_ok (env : Env) (he : EnvTotal env) (hF : FromSpecOk env) (hP
     (a b : Atom) (isAnd : Bool) (ha : GoodAtom env a) (hb : GoodAtom env b) (m : M)
     (h : mergeSingle a b isAnd = some m) :
     GAll (Good env) m ∧ sem env m = bop isAnd (sem env (.expr a)) (sem env (.expr b)) := by
-  unfold mergeSingle at h
+  have hguard : mergeSingleCore a b isAnd = some m ∧ a.exactView = true ∧ b.exactView = true := by
+    unfold mergeSingle at h; split at h
+    · rename_i hx; simp only [Bool.and_eq_true] at hx; exact ⟨h, hx.1, hx.2⟩
+    · simp at h
+  clear h
+  obtain ⟨h, hxa, hxb⟩ := hguard
+  unfold mergeSingleCore at h
   split at h
   · rename_i hpair
-    exact hP a b isAnd m ha hb hpair h
+    exact hP a b isAnd m ha hb hxa hxb hpair h
   · split at h
     · simp at h
     · rename_i hne
@@ -681,13 +696,13 @@ theorem mergeSingle_ok (env : Env) (he : EnvTotal env) (hF : FromSpecOk env) (hP
             cases hr : (if isAnd then aspecAnd a.spec b.spec else aspecOr a.spec b.spec) with
             | some r =>
               rw [hr] at h
-              exact merge_some_ok env he hF a b isAnd ha hb hn h1 h2' r hr m h
+              exact merge_some_ok env he hF a b isAnd ha hb hxa hxb hn h1 h2' r hr m h
             | none =>
               rw [hr] at h
               simp only at h
               -- NotImplementedError: two `==` under `|`, two `!=` under `&` (string variables only)
-              obtain ⟨_, na, ka⟩ := good_ordinary env a ha h1 h2'
-              obtain ⟨_, nb, kb⟩ := good_ordinary env b hb (hn ▸ h1) (hn ▸ h2')
+              obtain ⟨_, na, ka⟩ := good_ordinary env a ha h1 h2' hxa
+              obtain ⟨_, nb, kb⟩ := good_ordinary env b hb (hn ▸ h1) (hn ▸ h2') hxb
               have hnv : versionLikeNames.contains a.name = false := by
                 cases hv : versionLikeNames.contains a.name with
                 | false => rfl
